@@ -69,7 +69,8 @@ class Anchors:
             it = j.get("impl_trait")
             if ia.split("::")[-1] != adt_name:
                 # Arc<StoreImpl> impls: impl_self contains the name
-                if not (trait and it and it.split("::")[-1] == trait and adt_name in (j.get("impl_self") or "")):
+                wrapped = ia.split("::")[-1] in ("Arc", "Box", "Rc") and ("::" + adt_name + "<") in ("::" + (j.get("impl_self") or "").replace("<", "<::"))
+                if not (trait and it and it.split("::")[-1] == trait and wrapped):
                     continue
             if trait is None and it is not None:
                 continue
